@@ -965,10 +965,13 @@ impl<R: std::io::Read> FlacChannelReader<R> {
                 .map(|c| &c[self.consumed..])
                 .collect())
         } else {
-            self.consumed = 0;
             let channels = usize::from(self.decoder.channel_count().get());
             match self.decoder.read_frame()? {
-                Some(frame) => Ok(frame.channels().collect()),
+                Some(frame) => {
+                    self.consumed = 0;
+                    Ok(frame.channels().collect())
+                }
+                // the finished frame stays marked as consumed
                 None => Ok(vec![&[]; channels]),
             }
         }
@@ -1035,8 +1038,8 @@ impl<R: std::io::Read + std::io::Seek> FlacChannelReader<R> {
             sample,
         )?;
 
-        // seeking invalidates the current samples consumed
-        self.consumed = 0;
+        // seeking invalidates whatever is left of the current frame
+        self.consumed = self.decoder.buf.pcm_frames();
 
         // needed channel-independent samples
         while sample > pos {
